@@ -523,3 +523,8 @@ func TestEveryLength(t *testing.T) {
 		Check: checkSign,
 	})
 }
+
+// coverage-guided fuzzing over the structured generator (thorough tier)
+func FuzzGenSign(f *testing.F) {
+	h.FuzzSub(f, h.Sub[signCase]{Prop: "C07", Name: "sign-vs-stdlib", Gen: genSign, Check: checkSign})
+}
